@@ -341,7 +341,8 @@ def fmtStore (s : Store) : String :=
 def fmtEvent (e : Event) : String :=
   " ".intercalate
     (["ev", toString e.blk, toString e.calli, toString e.pos.line, toString e.pos.col,
-      toString e.pos.off, hexOfBytes e.text, toString e.args.length]
+      toString e.pos.off, hexOfBytes e.text, toString e.pt.line, toString e.pt.col,
+      toString e.pt.off, toString e.args.length]
      ++ e.args.map fmtVal ++ [fmtStore e.state, fmtStore e.global])
 
 def fmtPanic : PanicVal → String
